@@ -7,7 +7,7 @@
                 so every unit index is 0.  (The model groups the edges into one target variable; the key contains the
                 target, so restricting first and grouping afterwards is the same dict restricted to that target.)
    2 merge      ir/circuit.py:_collect_from_edges — all grouped edges that reach one target variable are merged in
-                a dict keyed by the SOURCE NODE only (with `fixed_D3 = true`: by source node and source variable): `source_var` is a string, so the FIRST one stays, while weight,
+                a dict keyed by source node AND source variable (fix D59; before it, `fixed_D3 = false`: by the SOURCE NODE only): `source_var` is a string, so the FIRST one stays, while weight,
                 source_idx and target_idx are extended (defect D3: a second variable of the same node is dropped and
                 its weight is applied to the first variable).  Order of the source nodes: first appearance among the
                 edges into this target variable (the code: MultiDiGraph predecessor order of the target node; this only
@@ -56,9 +56,9 @@ Definition group_edges (es : list edge) : list gedge :=
   map mk_gedge (group_by key2_eqb (fun e => (esrc e, etgt e)) es).
 
 (* ---------------------------------------------------------------------------------------------- 2 merge *)
-(* THE MODEL SWITCH for defect D3: false = the code as it is (dict keyed by the source NODE only); true = the repair
-   /verif/fixes/proposed_fix_C01_D3.diff (keyed by source node AND source variable).  c01.py reads this line too. *)
-Definition fixed_D3 : bool := false.
+(* THE MODEL SWITCH for defect D3: true = the code as it is since fix D59 (/verif/fixes/fix_D59.diff: dict keyed by source
+   node AND source variable); false = the code before it (keyed by the source NODE only).  c01.py reads this line too. *)
+Definition fixed_D3 : bool := true.
 
 Record merged := { msrc : vid; mw : list Qc; msidx : list nat; mtidx : list nat }.
 Definition merge_key (g : gedge) : vid := if fixed_D3 then gsrc g else (vnode (gsrc g), "", "").
@@ -260,7 +260,8 @@ Definition guard_parser (n : net) : bool :=
                         | VInput => forallb (fun q => (deg_in (vname d) (rhs q) <? 3)%nat) (oeqs o)
                         | _ => true end) (ovars o)) (snd p)) (nnodes n).
 
-Definition guard (n : net) : bool := guard_d3 n && guard_names n && guard_labels n && guard_parser n.
+(* guard_d3 is no longer part of the guard: since fix D59 it holds of every network (EdgesProofs.guard_d3_when_fixed) *)
+Definition guard (n : net) : bool := guard_names n && guard_labels n && guard_parser n.
 
 (* ---------------------------------------------------------------------------------------------- harness helpers *)
 (* observed state map: positions pairwise distinct, inside the state vector, exactly the declared state variables *)
